@@ -162,6 +162,10 @@ def subworkflow_cases(check):
              "a.yaml": SUB_TMPL % "leaf.yaml", "b.yaml": LEAF, "leaf.yaml": LEAF}, "wide tree below a sub-workflow (rep %d)" % rep, "wide:below-sub", "ok")
         add({"workflow.yaml": wide(["a.yaml", "b.yaml", "a.yaml"]), "a.yaml": SUB_TMPL % "leaf.yaml", "b.yaml": SUB_TMPL % "leaf.yaml", "leaf.yaml": LEAF}, "shared leaf, repeated file (rep %d)" % rep, "wide:shared-leaf", "ok")
         add({"workflow.yaml": wide(["a.yaml", "b.yaml"]), "a.yaml": SUB_TMPL % "missing.yaml", "b.yaml": LEAF}, "missing leaf below a nested sibling (rep %d)" % rep, "missing:wide", "error")
+    # a loop step whose sub-workflow name equals the key under which the caller (like the command line program) registered the
+    # main workflow in the file cache, with a file of that name present: the name must not resolve to the main workflow
+    add({"workflow.yaml": main % "workflow", "workflow": LEAF}, "sub-workflow file named like the cache key of the main workflow", "keycollision:main", "ok")
+    add({"workflow.yaml": main % "a.yaml", "a.yaml": SUB_TMPL % "workflow", "workflow": LEAF}, "nested sub-workflow file named like the cache key of the main workflow", "keycollision:nested", "ok")
     add({"workflow.yaml": ""}, "empty main file", "empty-main", "error")
     add({"other.yaml": LEAF}, "no workflow.yaml", "no-main", "error")
     return out
